@@ -75,6 +75,37 @@ Example C27_rejuvenate_nonvacuous :
                    /\ chm_eqb (choices nt) (choices ex_t) = false /\ bwd <> [].
 Proof. exact rejuvenate_nonvacuous. Qed.
 
+(* Rejuvenate applied with argdiffs that CHANGE the model's arguments: the inner update runs under the new arguments —
+   the new trace holds them, log p(x') is taken under the new arguments and log p(x) under the old trace's *)
+Theorem C27_rejuvenate_weight_new_arguments : forall p q amap k t a nt w bwd,
+  wf_trace p t ->
+  rejuvenate_args p q amap k t a = Ok (nt, w, bwd) ->
+  exists pt lpx lpx' lqf lqb,
+    simulate q (fold_in k 1) (amap (choices t)) = Ok pt /\
+    choices nt = override (choices t) (choices pt) /\
+    bwd = discard (choices t) (choices pt) /\
+    t_args nt = a /\
+    assess p (choices t) (t_args t) = Ok lpx /\
+    assess p (choices nt) a = Ok lpx' /\
+    assess q (choices pt) (amap (choices t)) = Ok lqf /\
+    assess q bwd (amap (choices nt)) = Ok lqb /\
+    w == lpx' + lqb - lpx - lqf /\
+    wf_trace p nt.
+Proof. exact rejuvenate_args_weight. Qed.
+Print Assumptions C27_rejuvenate_weight_new_arguments.
+Theorem C27_unchanged_arguments_is_the_special_case : forall p q amap k t,
+  rejuvenate_args p q amap k t (t_args t) = rejuvenate p q amap k t.
+Proof. exact rejuvenate_args_same. Qed.
+Print Assumptions C27_unchanged_arguments_is_the_special_case.
+Example C27_new_arguments_nonvacuous :
+  wf_trace (prog_of ex_pa) ex_ta /\
+  exists nt w w0 bwd bwd0 nt0,
+    rejuvenate_args (prog_of ex_pa) (prog_of ex_q) (amap_of ex_pa [V 1]) ex_k1 ex_ta [3#2] = Ok (nt, w, bwd) /\
+    rejuvenate (prog_of ex_pa) (prog_of ex_q) (amap_of ex_pa [V 1]) ex_k1 ex_ta = Ok (nt0, w0, bwd0) /\
+    t_args nt = [3#2] /\ ~ w == w0.
+Proof. exact rejuvenate_args_nonvacuous. Qed.
+Print Assumptions C27_new_arguments_nonvacuous.
+
 (* traces made by simulate, and traces returned by Rejuvenate itself, are well-formed: the
    theorem applies along a whole chain of moves *)
 Theorem C27_simulate_wf : forall p k args t, simulate p k args = Ok t -> wf_trace p t /\ t_args t = args.
